@@ -176,9 +176,13 @@ func getIndex(index Constant) gep.Index {
 					}
 				}
 			default:
-				// TODO: remove debug output.
-				panic(fmt.Errorf("support for gep index vector element type %T not yet implemented", elem))
-				//return gep.Index{HasVal: false}
+				// an element without a concrete integer value (undef, poison, a
+				// constant expression): the index vector has no single value, but
+				// it still has a length.
+				return gep.Index{
+					HasVal:    false,
+					VectorLen: uint64(len(index.Elems)),
+				}
 			}
 		}
 		return gep.Index{
